@@ -14,6 +14,7 @@ def run(tier, seed, replay):
     texts = [tg.program(rng, nlines=rng.randrange(0, 12)) for _ in range(n)]
     texts += tg.repo_corpus()
     texts += tg.edge_texts()
+    texts += tg.odd_space_texts()
     texts += tg.long_texts(rng, tier)[:6]
     shapes = tg.all_shapes()
     step = 6 if tier == "quick" else 1
